@@ -69,8 +69,10 @@ theorem tryLeftSteal_eq (t : Nat) (el er : List Elt) (p : Elt) (cl : List Node) 
 
 theorem merge_eq (el er : List Elt) (p : Elt) (cl : List Node) (a b : Node) (cr : List Node)
     (h : cl.length = el.length) :
-    merge (el ++ p :: er) (cl ++ a :: b :: cr) el.length = (el ++ er, cl ++ mergeNodes a p b :: cr) := by
-  simp only [merge, kidAt_at h, kidAt_at_succ h, eltAt_at rfl, popAt_at rfl, popAt_at_succ h, setAt_at h]
+    merge (el ++ p :: er) (cl ++ a :: b :: cr) el.length = some (el ++ er, cl ++ mergeNodes a p b :: cr) := by
+  have hlt : el.length + 1 < (cl ++ a :: b :: cr).length := by simp; omega
+  simp only [merge, hlt, if_true, kidAt_at h, kidAt_at_succ h, eltAt_at rfl, popAt_at rfl, popAt_at_succ h,
+    setAt_at h]
 
 /-- what `balance` + searching again deliver to `delete` -/
 def BalOut (t h : Nat) (key : Nat) (es : List Elt) (cs : List Node) (r : List Elt × List Node) : Prop :=
@@ -168,7 +170,7 @@ theorem balance_spec {t h key : Nat} {el er : List Elt} {cl cr : List Node} {c :
     (hs : Sorted (flat (.node (el ++ er) (cl ++ c :: cr))))
     (hmin : c.elts.length = minKeys t) (hne : 1 ≤ (el ++ er).length)
     (hwl : ∀ x ∈ el, x.1 < key) (hwr : ∀ x ∈ er, key < x.1) :
-    BalOut t h key (el ++ er) (cl ++ c :: cr) (balance t (el ++ er) (cl ++ c :: cr) el.length) := by
+    ∃ r, balance t (el ++ er) (cl ++ c :: cr) el.length = some r ∧ BalOut t h key (el ++ er) (cl ++ c :: cr) r := by
   have hcr : cr.length = er.length := by have := hk.1; simp at this; omega
   have hcmax : c.elts.length < maxKeys t := by rw [hmin]; simp only [minKeys, maxKeys]; omega
   -- the right-hand alternatives (right steal, or merge with the right sibling), available when `er ≠ []`
@@ -195,11 +197,11 @@ theorem balance_spec {t h key : Nat} {el er : List Elt} {cl cr : List Node} {c :
           simp only [List.nil_append, List.length_nil] at hm
           rw [hm]
           have := bal_merge (key := key) (el := []) (cl := []) (by omega) hk rfl hmin hrmin (by simp) hwr'
-          simpa using this
+          exact ⟨_, rfl, by simpa using this⟩
         · have : isMinimal t r = false := by simp [isMinimal, hrmin]
           simp only [this, Bool.false_eq_true, if_false]
           have := bal_right_steal (key := key) (el := []) (cl := []) hk rfl hs hrmin hcmax (by simp) hq hwr'
-          simpa using this
+          exact ⟨_, rfl, by simpa using this⟩
   · -- there is a left sibling
     obtain ⟨el', p, rfl⟩ := snoc_of_pos el (by cases el <;> simp_all)
     obtain ⟨cl', l, rfl⟩ := snoc_of_pos cl (by simp at hcl; omega)
@@ -214,10 +216,10 @@ theorem balance_spec {t h key : Nat} {el er : List Elt} {cl cr : List Node} {c :
     · have : isMinimal t l = true := by simp [isMinimal, hlmin]
       simp only [this, if_true]
       -- no left steal; try the right sibling
-      have hmerge : BalOut t h key (el' ++ p :: er) (cl' ++ l :: c :: cr)
-          (merge (el' ++ p :: er) (cl' ++ l :: c :: cr) (el'.length + 1 - 1)) := by
+      have hmerge : ∃ r, merge (el' ++ p :: er) (cl' ++ l :: c :: cr) (el'.length + 1 - 1) = some r ∧
+          BalOut t h key (el' ++ p :: er) (cl' ++ l :: c :: cr) r := by
         rw [Nat.add_sub_cancel, merge_eq el' er p cl' l c cr hcl']
-        exact bal_merge (by omega) hk hcl' hlmin hmin hwl' hwr
+        exact ⟨_, rfl, bal_merge (by omega) hk hcl' hlmin hmin hwl' hwr⟩
       cases er with
       | nil =>
         have : cr = [] := by cases cr <;> simp_all
@@ -245,9 +247,9 @@ theorem balance_spec {t h key : Nat} {el er : List Elt} {cl cr : List Node} {c :
             have hs2 : Sorted (flat (.node ((el' ++ [p]) ++ q :: er) ((cl' ++ [l]) ++ c :: r :: cr))) := by
               simpa using hs
             have := bal_right_steal (key := key) hk2 (by simp [hcl']) hs2 hrmin hcmax hwl hq hwr'
-            simpa using this
+            exact ⟨_, rfl, by simpa using this⟩
     · have : isMinimal t l = false := by simp [isMinimal, hlmin]
       simp only [this, Bool.false_eq_true, if_false]
-      exact bal_left_steal hk hcl' hs hlmin hcmax hwl' hp hwr
+      exact ⟨_, rfl, bal_left_steal hk hcl' hs hlmin hcmax hwl' hp hwr⟩
 
 end Model.BTree
